@@ -218,18 +218,19 @@ PROPS['C10'] = {
 PROPS['C19'] = {
     'title': 'Coordinate traversal, mapping and bounding boxes are mutually consistent',
     'level': 'proof',
-    'verus': ['c19_minmax', 'c19_map'],
+    'verus': ['c19_minmax', 'c19_map', 'c19_gc'],
     'kani_extra': ['--no-memory-safety-checks', '--no-overflow-checks', '--no-assertion-reach-checks'],
     'kani': [
         ('geo', 'c19.rs', r'^c19_k_(point_line_rect_triangle|triangle_map_main|triangle_map_finding_reflection|min_polygon_counts|min_polygon_map|min_polygon_try_map_error_in_hole|min_polygon_try_map_error_in_shell|min_polygon_try_map_ok)$', 'bounded', 'quick'),
         ('geo', 'c19.rs', r'^c19_k_linestring$', 'bounded', 'thorough'),
     ],
     'twins': {'C19.V.get_min_max': r'^c19_k_point_line_rect_triangle', 'C19.V.bounding_rect_merge': r'^c19_k_point_line_rect_triangle'},
-    'trusted': ['Verus unit c19_map: the mapped function is an arbitrary `impl Fn` known only through call_requires / call_ensures (precondition: total); local twin declarations of MapCoords / MapCoordsInPlace carrying the Copy bounds of the impls (X8), impl-Trait arguments desugared to generic parameters (X11); Line::start_point / end_point twins',
+    'trusted': ['Verus unit c19_gc: GeometryCollection::iter() twin (yields the members in order), ASSUMED std contract of Iterator::fold for slice::Iter (a chain of accumulators linked by the closure), members own bounding_rect abstract (opaque Geometry enum), bounding_rect_merge contract (proved in c19_minmax); fold closure annotated in place (X10)',
+                'Verus unit c19_map: the mapped function is an arbitrary `impl Fn` known only through call_requires / call_ensures (precondition: total); local twin declarations of MapCoords / MapCoordsInPlace carrying the Copy bounds of the impls (X8), impl-Trait arguments desugared to generic parameters (X11); Line::start_point / end_point twins',
                 'bounded harnesses use concrete pairwise-distinct coordinates for traversal / mapping code (parametric in the coordinate values) and small concrete container sizes',
                 'Kani default memory-safety / overflow checks are switched off for these harnesses (only the contract assertions are checked)'],
     'undecided_clauses': [
-        'GeometryCollection and Geometry-enum traversals, bounding boxes and try_map error propagation: CBMC does not finish symbolic execution of the recursive Geometry <-> GeometryCollection delegation within 300-900 s even on two concrete points; NOT under contract',
+        'GeometryCollection and Geometry-enum traversals and try_map error propagation (GeometryCollection::bounding_rect itself is now under a Verus contract, unit c19_gc): CBMC does not finish symbolic execution of the recursive Geometry <-> GeometryCollection delegation within 300-900 s even on two concrete points; NOT under contract',
         'MultiPoint / MultiLineString / MultiPolygon traversals, extremes',
         'map_coords / try_map_coords of LineString, Polygon, Multi*, collections (iterator adaptors: outside Verus; K harnesses on small literals only); Triangle (Triangle::new re-orients: open finding)',
     ],
